@@ -21,6 +21,11 @@ type c09Step struct {
 	Del   []string          `json:"delete,omitempty"`
 	Dirs  []string          `json:"mkdir,omitempty"`
 	Links map[string]string `json:"symlink,omitempty"` // path -> new link target (the link is replaced)
+	// KeepMtime: the written file gets the SAME modification time (the current whole second) before the previous
+	// build and after the edit: what a coarse-grained file system or an mtime-preserving tool produces. esbuild
+	// distrusts stat data younger than 3 s and compares contents instead, so the rebuild (which must happen within
+	// that time, otherwise the step is skipped) still has to see the new contents.
+	KeepMtime string `json:"keep_mtime,omitempty"`
 }
 
 type c09Replay struct {
@@ -102,6 +107,10 @@ func c09Edit(r *gen.Rand, cur map[string]string) c09Step {
 				}
 				s := w("src/b.js", n)
 				s.Edit = "same-length edit in src/b.js"
+				if r.Bool() {
+					s.Edit = "same-length same-mtime edit in src/b.js"
+					s.KeepMtime = "src/b.js"
+				}
 				return s
 			}
 		case 2:
@@ -296,6 +305,8 @@ func c09Run(rep *Report, workdir string, class string, files map[string]string, 
 	// what a fresh build returns (evaluated synchronously through the verif-tagged accessor)
 	var dirtyFn func() []string
 	prevFresh := ""
+	var fresh3s time.Time
+	fresh3sFile := ""
 	check := func(label string) bool {
 		if dirtyFn != nil {
 			dirty := dirtyFn()
@@ -313,10 +324,25 @@ func c09Run(rep *Report, workdir string, class string, files map[string]string, 
 		// paths (rebuild and fresh) see the same tree, so no sleep is needed for correctness of the oracle
 		rebuilt, df := rebuildForWatch(ctx)
 		dirtyFn = df
+		if !fresh3s.IsZero() && time.Now().After(fresh3s) {
+			// too slow: the pinned modification time is no longer "too new to trust", so a stale rebuild would be
+			// legitimate. Give the file a new time, rebuild once more and go on without a verdict for this step.
+			rep.stat("same-mtime-step-too-slow")
+			now := time.Now()
+			os.Chtimes(fresh3sFile, now, now)
+			_, dirtyFn = rebuildForWatch(ctx)
+			prevFresh = summarize(api.Build(mk()), dir)
+			return true
+		}
 		fresh := api.Build(mk())
 		a, b := summarize(rebuilt, dir), summarize(fresh, dir)
 		prevFresh = b
 		rep.Evaluations++
+		if len(fresh.Errors) > 0 {
+			rep.stat("fresh-build-has-errors")
+		} else {
+			rep.stat("fresh-build-ok")
+		}
 		if a != b {
 			rep.violate(class+"/rebuild-differs-from-fresh-build", fmt.Sprintf("after %q the rebuild differs from a fresh build: %s", label, firstDiff(a, b)),
 				c09Replay{Files: files, OptName: optName, Steps: append([]c09Step{}, done...), Diff: firstDiff(a, b)})
@@ -327,11 +353,38 @@ func c09Run(rep *Report, workdir string, class string, files map[string]string, 
 	if !check("initial build") {
 		return
 	}
+	runStep := func(s c09Step) bool {
+		if s.KeepMtime == "" {
+			applyStep(dir, cur, s)
+			done = append(done, s)
+			return check(s.Edit)
+		}
+		full := filepath.Join(dir, s.KeepMtime)
+		t := time.Now().Truncate(time.Second)
+		os.Chtimes(full, t, t)
+		if !check("pin the modification time of " + s.KeepMtime) {
+			return false
+		}
+		applyStep(dir, cur, s)
+		os.Chtimes(full, t, t)
+		done = append(done, s)
+		fresh3s, fresh3sFile = t.Add(2500*time.Millisecond), full
+		ok := check(s.Edit)
+		fresh3s = time.Time{}
+		return ok
+	}
 	if steps == nil {
 		for i := 0; i < nsteps; i++ {
 			s := c09Edit(gr, cur)
-			applyStep(dir, cur, s)
-			done = append(done, s)
+			if s.KeepMtime == "" {
+				applyStep(dir, cur, s)
+				done = append(done, s)
+			} else if !runStep(s) {
+				return
+			} else {
+				rep.stat("edit:same-length same-mtime")
+				continue
+			}
 			rep.stat("edit:" + strings.SplitN(s.Edit, " ", 3)[0] + " " + strings.SplitN(s.Edit+" ", " ", 3)[1])
 			if !check(s.Edit) {
 				return
@@ -340,9 +393,7 @@ func c09Run(rep *Report, workdir string, class string, files map[string]string, 
 		rep.DistinctNontrivial++
 	} else {
 		for _, s := range steps {
-			applyStep(dir, cur, s)
-			done = append(done, s)
-			if !check(s.Edit) {
+			if !runStep(s) {
 				return
 			}
 		}
@@ -352,7 +403,7 @@ func c09Run(rep *Report, workdir string, class string, files map[string]string, 
 
 func init() {
 	searches["c09-history"] = func(r *gen.Rand, count int, workdir string, rep *Report) {
-		rep.Rule = "a project (TS entry, JS/TSX/JSON modules, tsconfig with jsx/paths/useDefineForClassFields, a node_modules package with main/exports/sideEffects) is built through one long-lived context; after each of 2-7 random edits (content incl. same-length, tsconfig and package.json fields, shadowing files, nearer node_modules, file<->directory, syntax error + repair, delete/recreate, rename, json named imports, retargeting a symlinked package directory and a symlinked file, creating/deleting files in an initially empty directory that a glob-style import lists) ctx.Rebuild() is compared with a fresh api.Build of the same tree: output paths+bytes and diagnostics (text+location). non-trivial = a complete history"
+		rep.Rule = "a project (TS entry, JS/TSX/JSON modules, tsconfig with jsx/paths/useDefineForClassFields, a node_modules package with main/exports/sideEffects) is built through one long-lived context; after each of 2-7 random edits (content incl. same-length, same-length with an unchanged recent modification time, tsconfig and package.json fields, shadowing files, nearer node_modules, file<->directory, syntax error + repair, delete/recreate, rename, json named imports, retargeting a symlinked package directory and a symlinked file, creating/deleting files in an initially empty directory that a glob-style import lists) ctx.Rebuild() is compared with a fresh api.Build of the same tree: output paths+bytes and diagnostics (text+location). non-trivial = a complete history"
 		for i := 0; i < count; i++ {
 			gr := r.Fork()
 			opt := pickS(gr, "fmt=esm", "fmt=esm,ms", "fmt=cjs,platform=node", "fmt=esm,splitting", "fmt=esm,sourcemap=external", "fmt=iife,mi", "fmt=esm,metafile")
